@@ -44,9 +44,30 @@ def run(ctx):
   for flag in (False, True):
     uniform(ctx, 'stretch_note_sequence', {'note_sequence': own.NS}, {'in_place': flag}, tp, 'aug:Mult', 'stretch_factor',
             extra={('tempos', '[]', 'qpm'): ('aug:Div', 'stretch_factor')}, in_place=flag)
+  interp_knots(ctx)
   adjust(ctx, tp)
   concat(ctx)
   repeat(ctx)
+
+
+def interp_knots(ctx):
+  """Location-independent typestate: the x-coordinates handed to np.interp in rectify_beats must be established as sorted AND
+  free of duplicates (np.interp over repeated knots is not a function of time: the first/last beat collapses when a beat
+  annotation sits exactly at 0.0 or at total_time)."""
+  from sa import seqstate
+  rb = ctx.func(SL + ':rectify_beats')
+  for c in ast.walk(rb.node):
+    if isinstance(c, ast.Call) and (dotted(c.func) or '').endswith('.interp') and len(c.args) >= 3:
+      xp = U.expand_locals(rb.node, c.args[1], depth=8)
+      st = seqstate.state(xp)
+      if st is None:
+        continue
+      ok = 'sorted' in st and 'unique' in st
+      ctx.ob('RECTIFY/knots-strictly-increasing', rb, c, ok, 'the beat times handed to np.interp are sorted and de-duplicated after the end points were added' if ok else
+             'the knots %s of the time map are %s: %s' % (norm_text(c.args[1]), ' and '.join(sorted(st)) or 'neither sorted nor unique',
+                                                           'the end points 0.0 / total_time are added after de-duplication, and the beat filter admits beats exactly at an end point, '
+                                                           'so a beat at 0.0 or at total_time is a repeated knot' if 'sorted' in st else 'np.interp needs increasing x-coordinates'),
+             construct='x-coordinates of the beat interpolation', definite=True)
 
 
 def _root_writes(res, in_place, param):
